@@ -469,7 +469,13 @@ Lemma close_table_cell_open v e ks s s' :
 Proof.
   intro H. unfold close_table_cell in H.
   bind_inv H as pr Epr. cbv zeta in H.
-  bind_inv H as rows0 Erows0. bind_inv H as dummy Edummy.
+  (* the two early returns of the repaired _close_table_cell *)
+  destruct (c_tree s) as [|tb0 root0] eqn:Eroot0; [injection H as <-; reflexivity|].
+  rewrite <- Eroot0 in H.
+  bind_inv H as rows0 Erows0.
+  destruct rows0 as [|rb0 rows1] eqn:Erows1; [injection H as <-; reflexivity|].
+  rewrite <- Erows1 in H.
+  bind_inv H as dummy Edummy.
   bind_inv H as s1 Es1. bind_inv H as span Espan.
   assert (K1 : c_open s1 = c_open s).
   { clear H Espan.
